@@ -119,7 +119,7 @@ func (g *tgen) expr(t ty, depth int) string {
 	kv := []iterVar{{"k", tS}, {"v", tS}}
 	switch t {
 	case tS:
-		switch dpick(15) {
+		switch dpick(17) {
 		case 0:
 			return g.leaf(t)
 		case 1:
@@ -149,6 +149,10 @@ func (g *tgen) expr(t ty, depth int) string {
 			return `" ${~ ` + S() + ` ~} "`
 		case 13:
 			return "[" + S() + ", " + S() + "][" + N() + "]"
+		case 14:
+			return M() + ".a"
+		case 15:
+			return "mn[" + S() + "]"
 		}
 		return "(" + S() + ")"
 	case tB:
